@@ -25,12 +25,17 @@ rc2, out2 = run([PY, "-m", "pytest", "-q", "-p", "no:cacheprovider", "tests"], c
 tests_ok = rc == 0 and rc2 == 0 and "40 passed" in tests_line[0]
 clean()
 d1, o1 = run([PY, "demo.py"], cwd=wt)
-run(["git", "stash"], cwd=wt)
+# the stash is shared between worktrees: set the change aside with diff / checkout / apply instead
+diff = subprocess.run(["git", "-C", wt, "diff", "--", "bisturi"], capture_output=True, text=True).stdout
+saved = os.path.join(wt, ".seeded-intake.diff")
+open(saved, "w").write(diff)
+run(["git", "checkout", "--", "bisturi"], cwd=wt)
 clean()
 d0, o0 = run([PY, "demo.py"], cwd=wt)
-run(["git", "stash", "pop"], cwd=wt)
+rc_apply, out_apply = run(["git", "apply", saved], cwd=wt)
+os.remove(saved)
+assert rc_apply == 0, out_apply
 clean()
-diff = subprocess.run(["git", "-C", wt, "diff", "--", "bisturi"], capture_output=True, text=True).stdout
 print("tests with change: %s (rc %d, second run rc %d)" % (tests_line[0].strip(), rc, rc2))
 print("demo with change: exit %d; without: exit %d" % (d1, d0))
 confirmed = tests_ok and d1 != 0 and d0 == 0 and bool(diff.strip())
@@ -39,7 +44,7 @@ meta = {"id": sid, "property": prop, "confirmed": confirmed, "tests_with_change"
         "demo_exit_with_change": d1, "demo_exit_without_change": d0,
         "demo_output_with_change": o1[-600:], "changed_lines": len([l for l in diff.splitlines() if l[:1] in "+-" and l[:3] not in ("+++", "---")]),
         "what_i_ran": ["cd <worktree> && /venv/bin/python -m pytest -q -p no:cacheprovider tests (twice: cold and warm cache)",
-                       "cd <worktree> && /venv/bin/python demo.py  (with the change, then after git stash)",
+                       "cd <worktree> && /venv/bin/python demo.py  (with the change, then with bisturi/ checked out clean, then the change re-applied)",
                        "BSIM_REPO=<worktree> ./check %s --tier %s" % (prop, tier)]}
 notes = os.path.join(wt, "NOTES.md")
 if os.path.exists(notes):
